@@ -1051,9 +1051,6 @@ func (v *V) execRange(fr *Frame, s *ast.RangeStmt, st *State) []Outcome {
 	return outs
 }
 
-func (v *V) execRangeMap(fr *Frame, s *ast.RangeStmt, st *State, mt *types.Map) []Outcome {
-	panic(unsupported("range over map"))
-}
 
 // ---------- contract application at call sites ----------
 
@@ -1132,8 +1129,12 @@ func (v *V) enclosingBlock(n ast.Node) ast.Node {
 func (v *V) applyContract(e *Env, fs *FuncSpec, fn *types.Func, recv *Val, args []Val, call *ast.CallExpr) []Val {
 	sig := fn.Type().(*types.Signature)
 	calleeMode := fs.Mode
+	crossMode := false
 	if calleeMode != "" && calleeMode != "any" && calleeMode != v.d.mode.String() {
-		panic(unsupported("call to %s: contract proved in mode %s, caller is in mode %s", fn.FullName(), calleeMode, v.d.mode))
+		// the callee's contract is stated in the other integer mode: here the call is opaque
+		// (results arbitrary, frame from its modifies clause); its precondition is NOT checked here.
+		crossMode = true
+		v.abstraction(fmt.Sprintf("call to %s (contract in mode %s) from %s (mode %s) is opaque: results unconstrained, precondition not checked at this call site", fn.FullName(), calleeMode, v.fi.name(), v.d.mode))
 	}
 	// names: receiver + params (optionally renamed in the key: "heap.Pop(h)")
 	bound := map[string]Val{}
@@ -1181,6 +1182,9 @@ func (v *V) applyContract(e *Env, fs *FuncSpec, fn *types.Func, recv *Val, args 
 	}
 	reqPlain, reqGhost := ghostClauses(fs.Requires)
 	ensPlain, ensGhost := ghostClauses(fs.Ensures)
+	if crossMode {
+		reqPlain, reqGhost, ensPlain, ensGhost = nil, nil, nil, nil
+	}
 	// 1. requires
 	for i, c := range reqPlain {
 		ce := mkEnv(e.st, nil)
